@@ -24,16 +24,14 @@ Theorem C13_atomic_in_histories : forall sch pre fo,
 Proof. exact atomic_in_histories. Qed.
 Print Assumptions C13_atomic_in_histories.
 
-(* known-bad means: the run went through one of the six named code sites (each of the five recorded ones refuted by a witness in Findings/C13.v) *)
+(* known-bad means: the run was marked - since the repairs in /repo (cd0fda9, a26540f, 6e4a87a, 751c8a4, e3298c1) the only mark left is
+   TInconsistent: a dictionary / queue was not in the shape the code itself asserts *)
 Theorem C13_known_bad_is_a_site : forall sch flt s o, known_bad sch flt s o = true ->
   exists t, In t (o_taints (step sch flt s o)).
 Proof. exact known_bad_sites. Qed.
 Print Assumptions C13_known_bad_is_a_site.
 
-(* ... and the named sites are all there is: TInconsistent (a dictionary / queue not in the shape the code asserts) plus the five sites
-   recorded as findings, each of which has a refutation witness in Findings/C13.v - so for this model the findings list is complete.
-   (The three Entity.set sites of earlier versions are gone: since repo cd0fda9 set() registers its undo closure and undoes in reverse
-   order, and C13_atomic covers every failing set().) *)
+(* ... and that is all there is: no code site that mutates without a (correct) undo is left in the model, so there is no open finding *)
 Theorem C13_sites_complete : forall sch flt s o, known_bad sch flt s o = true ->
   exists t, In t (o_taints (step sch flt s o)) /\ In t all_sites.
 Proof. exact sites_complete. Qed.
